@@ -458,6 +458,23 @@ def build(scene, state=None, assemble=True, options=None, names=None, extra=None
         for c in extra(B):
             add(c)
 
+    ea = scene.get("earlier_assembly")
+    if ea and add_to_system and assemble and scene.get("bodies") and not scene.get("rods"):
+        # the System object has a past: it was assembled before with prototype bodies of the same kinds but other
+        # masses / inertias, which were then replaced (remove + add) by the bodies of this scene
+        protos = []
+        for i, b in enumerate(scene["bodies"]):
+            r, A, p, v, w = now_pose[i]
+            if b["kind"] == "rigid":
+                protos.append(RigidBody(b["m"] * ea["mass_scale"], _theta(b) * ea["mass_scale"] * 0.5, q0=np.concatenate([r, p]), u0=np.concatenate([v, w]), name=f"proto{i}"))
+            else:
+                protos.append(PointMass(b["m"] * ea["mass_scale"], q0=r.copy(), u0=v.copy(), name=f"proto{i}"))
+        system.add(*protos)
+        with contextlib.redirect_stdout(io.StringIO()):
+            system.assemble()
+        for c in protos:
+            system.remove(c)
+        B.earlier_assembly = True
     if add_to_system:
         system.add(*B.order)
     if assemble and add_to_system:
